@@ -169,7 +169,7 @@ Definition with_chain (lay : layout) (c : list place) : layout := mkLayout (l_us
 Definition with_env (lay : layout) (e : envl) : layout := mkLayout (l_user lay) (l_chain lay) e.
 Definition empty_file (path : str) : place := mkPlace path (EFile (RText [])).
 Definition env_skipped (e : envl) : Prop :=
-  match e with EnvUnset | EnvEmpty => True | EnvNoUser => False | EnvAt p => notfile p end.
+  match e with EnvUnset | EnvEmpty | EnvNoUser => True | EnvAt p => notfile p end.
 
 Lemma eff_at_notfile p d : notfile p -> eff_at p d = Ok None.
 Proof. unfold notfile, eff_at. intros ->. reflexivity. Qed.
@@ -182,7 +182,7 @@ Lemma eff_project_empty_last chain path : Forall notfile chain ->
   eff_project (chain ++ [empty_file path]) = Ok (Some (path, [])).
 Proof. intro H. unfold eff_project. rewrite nearest_skip by assumption. reflexivity. Qed.
 Lemma eff_env_skipped e : env_skipped e -> eff_env e = Ok None.
-Proof. destruct e as [| | |p]; cbn; try reflexivity; [intros []|apply eff_at_notfile]. Qed.
+Proof. destruct e as [| | |p]; cbn; try reflexivity. apply eff_at_notfile. Qed.
 
 Section Absent.
   Variable parse : str -> config.
